@@ -1010,6 +1010,43 @@ def rebalance_exceptions(sf, max_m):
     return out
 
 
+# Inside these bounds the model takes the binary64 decisions from tables computed by Coq with primitive floats
+# (coq/Model/DimWiseFloat.v, theorems C06_rebalance_test_is_binary64_bounded / C03_version3_rounding_is_binary64_bounded); the harness
+# supplies decisions only beyond them, and cross-checks its own evaluation of the Python expressions against the tables once per run.
+CERTIFIED_SF = (0.1, 0.0, 0.125, 0.25, 0.05)
+RB_BOUND = 64
+V3_DIM_BOUND = 6
+V3_SV_BOUND = 64
+
+
+def harness_rb_exceptions(sf, max_m):
+    exc = rebalance_exceptions(sf, max_m)
+    if sf in CERTIFIED_SF:
+        return [t for t in exc if t[2] > RB_BOUND]
+    return exc
+
+
+def float_table_mismatches(run_model, prop):
+    """the tables of the model (entry sub 7) against the harness' own evaluation of the Python expressions in binary64"""
+    bad = []
+    res = run_model(prop, [(7, [sx.rat(sf), dim]) for sf in CERTIFIED_SF for dim in (1, 2, 3, 4)])
+    k = 0
+    for sf in CERTIFIED_SF:
+        for dim in (1, 2, 3, 4):
+            r = res[k]
+            k += 1
+            if sx.is_err(r) or isinstance(r, tuple):
+                bad.append('model error for sf=%r dim=%d: %s' % (sf, dim, str(r)[:100]))
+                continue
+            bound, rb, v3 = r
+            mine = sorted(t for t in rebalance_exceptions(sf, RB_BOUND) if t[2] <= RB_BOUND)
+            if bound != RB_BOUND or sorted([list(t) for t in rb if t[0] != t[1]]) != mine:
+                bad.append('rebalancing table of safety factor %r differs from the Python evaluation (%d vs %d entries)' % (sf, len(rb), len(mine)))
+            if sorted([list(t) for t in v3]) != sorted(v3_exceptions(dim, V3_SV_BOUND)):
+                bad.append('version-3 table of dim %d differs from the Python evaluation' % dim)
+    return bad
+
+
 def v3_exceptions(dim, max_sv=40):
     out = []
     for sv in range(0, max_sv + 1):
@@ -1025,8 +1062,8 @@ def v3_exceptions(dim, max_sv=40):
 def model_case(case, impl_result):
     what = case.get('what', 0)
     max_m = max(2, (impl_result or {}).get('max_size', 8) + 2, max([len(t) for t in (case.get('install') or {}).get('trees', [])] + [0]) + 2)
-    erb = rebalance_exceptions(case['safety'], max_m) if case['rebalancing'] else []
-    ev3 = v3_exceptions(case['dim']) if case['version'] == 3 else []
+    erb = harness_rb_exceptions(case['safety'], max_m) if case['rebalancing'] else []
+    ev3 = v3_exceptions(case['dim']) if case['version'] == 3 and case['dim'] > V3_DIM_BOUND else []
     bens = impl_result['bens'] if impl_result else [[[Fraction(*x) if isinstance(x, (list, tuple)) else sx.rat(x) for x in bd] for bd in st]
                                                     for st in (case.get('bens') or [])]
     hist = [what, case['dim'], case['lmin'], case['lmax'], case['version'], case['rebalancing'], case['boundary'],
@@ -1036,7 +1073,7 @@ def model_case(case, impl_result):
     if inst is None:
         return (0, hist)
     if not case['rebalancing'] and inst['rebalance']:
-        hist[11] = rebalance_exceptions(case['safety'], max_m)
+        hist[11] = harness_rb_exceptions(case['safety'], max_m)
     trees = [[[Fraction(*o[0]), Fraction(*o[1]), o[2], o[3], 0] for o in t] for t in inst['trees']]
     return (5, [hist, bool(inst['rebalance']), trees])
 
